@@ -208,7 +208,10 @@ class Wrapf(util.WrapperMixin):
                 self.set_f_module(fileinfo.module_use,
                                   "iso_c_binding", "C_PTR")
             else:
-                output.append(ast.gen_arg_as_fortran())
+                # Components of a bind(C) type have interoperable types
+                # (logical(C_BOOL), not logical) and are not dummy
+                # arguments (no character(len=*)).
+                output.append(ast.gen_arg_as_fortran(bindc=True, local=True))
                 self.update_f_module(
                     fileinfo.module_use, {},
                     ntypemap.f_c_module or ntypemap.f_module
